@@ -4,6 +4,7 @@
   definitions, not by the harness), and Props/* relate them to the model.
 -/
 import N2V.Model.Run
+import N2V.TraceSpec
 namespace N2V.Mon
 open N2V N2V.Sched
 
@@ -137,6 +138,7 @@ structure Verdicts where
   stopsOnInterrupt : Bool
   cycleSound : Bool          -- a `dependency cycle` diagnostic only if the requested closure has one
   cycleComplete : Bool       -- an ordering cycle in the requested closure is never built through
+  traceSpec : Bool           -- every event satisfies `okEv` (TraceSpec.lean) w.r.t. its history
 
 /-- `result`: the observed outcome token (`ok n`, `fail`, `err ..`, `panic ..`). -/
 def verdicts (g : Graph) (a : Run.Args) (result : List String) (tr : List Ev) : Verdicts :=
@@ -184,7 +186,8 @@ def verdicts (g : Graph) (a : Run.Args) (result : List String) (tr : List Ev) : 
         | some fs => closure (allProducers g) (g.nBuilds * g.nBuilds + g.nBuilds + 1)
             ((if sc.loads ≤ 1 then a.manifest :: fs else fs).filterMap g.producer) []
         | none => []
-      !isOk || !hasOrderingCycle g reach }
+      !isOk || !hasOrderingCycle g reach
+    traceSpec := okTrace g a.par (poolShape (initPools a.pools)) tr.reverse }
 
 def Verdicts.toList (v : Verdicts) : List (String × Bool) :=
   [("startsAfterDeps", v.startsAfterDeps), ("startsOnce", v.startsOnce), ("withinLimits", v.withinLimits),
@@ -192,6 +195,6 @@ def Verdicts.toList (v : Verdicts) : List (String × Bool) :=
    ("countsOk", v.countsOk), ("traceConsistent", v.traceConsistent), ("onlyWanted", v.onlyWanted),
    ("closureComplete", v.closureComplete), ("exitOk", v.exitOk), ("summaryOk", v.summaryOk),
    ("decided", v.decided), ("stopsOnInterrupt", v.stopsOnInterrupt),
-   ("cycleSound", v.cycleSound), ("cycleComplete", v.cycleComplete)]
+   ("cycleSound", v.cycleSound), ("cycleComplete", v.cycleComplete), ("traceSpec", v.traceSpec)]
 
 end N2V.Mon
